@@ -971,7 +971,7 @@ func runC14(c *ctx) {
 			validEnc["Tok"] = append(validEnc["Tok"], b)
 		}
 		if i < 2 {
-			b, _ := t.Marshal()
+			b, _, _, _ := c14Marshal(t)
 			c.sample(map[string]string{"token": c14Tok(t), "marshal": hex.EncodeToString(b)})
 		}
 		if i%2 == 0 {
@@ -984,7 +984,7 @@ func runC14(c *ctx) {
 				validEnc["Roles"] = append(validEnc["Roles"], b)
 			}
 			if i == 0 {
-				b, _ := ro.Marshal()
+				b, _, _, _ := c14Marshal(ro) // recovering wrapper: a panicking encoder is a monitor failure above, not a crash of the run
 				c.sample(map[string]string{"roles": c14Roles(ro), "marshal": hex.EncodeToString(b)})
 			}
 		}
